@@ -202,6 +202,10 @@ fn knobs_for(prop: Prop, sub: u64, tier: Tier, rng: &mut Rng) -> Knobs {
             k.max_steps = 2048;
         }
     }
+    // scale swarm (DESIGN.md section 2.4): one run in 400 (quick) / 100 (thorough) leaves the
+    // ordinary sizes along one dimension
+    let scale_roll = rng.below(if tier == Tier::Thorough { 100 } else { 400 });
+    let scale: u8 = if scale_roll == 0 { 1 + rng.below(5) as u8 } else { 0 };
     match prop {
         Prop::C01 => {
             k.w_in_x = 0;
@@ -491,7 +495,66 @@ fn knobs_for(prop: Prop, sub: u64, tier: Tier, rng: &mut Rng) -> Knobs {
             }
         }
     }
+    apply_scale(&mut k, scale, prop);
     k
+}
+
+fn apply_scale(k: &mut Knobs, scale: u8, prop: Prop) {
+    match scale {
+        1 => {
+            // hundreds of outputs, most of them supplied
+            k.scale = 1;
+            k.widths = vec![1, 1, 1, 8];
+            k.w_layout = [3, 3, 1, 0];
+            k.max_rows = 12;
+            k.block_len = (1, 3);
+            k.max_depth = 1;
+            k.exotic_names = false;
+            k.n_bidir = (0, 0);
+        }
+        2 => {
+            // dozens of inputs
+            k.scale = 2;
+            k.widths = vec![1, 1, 1, 4];
+            k.max_rows = 24;
+            k.block_len = (1, 4);
+            k.exotic_names = false;
+            k.w_in_lit = k.w_in_lit.max(8);
+        }
+        3 if prop != Prop::C13 => {
+            // up to ten input X in one row
+            k.scale = 3;
+            k.widths = vec![1, 1, 2];
+            k.w_in_x = 12;
+            k.max_x = 10;
+            k.w_in_lit = 6;
+            k.max_rows = 2100;
+            k.max_steps = 2300;
+            k.block_len = (1, 2);
+            k.max_depth = 1;
+            k.exotic_names = false;
+            k.n_bidir = (0, 0);
+        }
+        4 => {
+            k.scale = 4;
+            k.w_loop = k.w_loop.max(4);
+            k.w_repeat = k.w_repeat.max(2);
+        }
+        5 => {
+            k.scale = 5;
+            k.max_depth = 7;
+            k.max_loop = 2;
+            k.block_len = (1, 2);
+            k.w_loop = 10;
+            k.w_while = 3;
+            k.w_row = 6;
+            if prop != Prop::C13 {
+                k.max_rows = 400;
+                k.max_steps = 500;
+            }
+        }
+        _ => {}
+    }
 }
 
 // ---------------------------------------------------------------------------------------
@@ -590,9 +653,82 @@ fn corpus_case(prop: Prop, rng: &mut Rng) -> Option<Case> {
     Some(case)
 }
 
+/// Scale beyond anything the ordinary generator reaches: 2^16 and more live bindings when a
+/// loop is entered (thorough tier only; one such run takes about half a minute because the
+/// library's variable store is a linear list).
+fn huge_env_case(rng: &mut Rng) -> Case {
+    let n = *rng.pick(&[65_535usize, 65_536, 65_537, 65_540, 70_000]);
+    let mut stmts: Vec<Stmt> = (0..n)
+        .map(|i| Stmt::Let(format!("v{i}"), Expr::Num((i % 251) as i64)))
+        .collect();
+    let probe = format!("v{}", rng.usize(n));
+    let row = |e: Expr| Stmt::Row(vec![Entry::Expr(e), Entry::X]);
+    let mut body = vec![row(Expr::bin(BinOp::Add, Expr::id(&probe), Expr::id("i")))];
+    if rng.chance(1, 2) {
+        body.push(Stmt::Let(probe.clone(), Expr::Num(7)));
+        body.push(row(Expr::id(&probe)));
+    }
+    if rng.chance(1, 2) {
+        body.push(Stmt::Loop(
+            "j".into(),
+            Expr::Num(2),
+            vec![
+                Stmt::Let("w".into(), Expr::id("j")),
+                row(Expr::bin(BinOp::Add, Expr::id("w"), Expr::id("i"))),
+            ],
+        ));
+    }
+    stmts.push(Stmt::Loop("i".into(), Expr::Num(2), body));
+    stmts.push(row(Expr::id(&probe)));
+    stmts.push(row(Expr::id("v0")));
+    let q = SigSpec {
+        name: "Q".into(),
+        bits: 8,
+        kind: SigKind::Out,
+        default: InVal::Num(0),
+    };
+    Case {
+        signals: vec![
+            SigSpec {
+                name: "A".into(),
+                bits: 16,
+                kind: SigKind::In,
+                default: InVal::Num(0),
+            },
+            q.clone(),
+        ],
+        program: Program {
+            header: vec!["A".into(), "Q".into()],
+            stmts,
+        },
+        duts: vec![crate::dut::DutSpec {
+            layout: vec![(q, SigBeh::Counter(0, 1))],
+            seed: rng.next_u64(),
+            overrides_write: rng.chance(1, 2),
+            faults: vec![],
+        }],
+        schedule: vec![Action::Construct(0), Action::Run(0)],
+        entropy: vec![rng.next_u64()],
+        hash_seed: rng.next_u64(),
+        reparse: vec![],
+        run_static: false,
+        inspect: Some((rng.next_u64(), 1, 1)),
+        max_steps: 64,
+        continue_after_error: false,
+        source_override: None,
+        dig_file: None,
+    }
+}
+
 pub fn generate(prop: Prop, run_seed: u64, tier: Tier) -> Case {
     let mut rng = Rng::new(run_seed);
     let sub = rng.next_u64() % 60;
+    if tier == Tier::Thorough
+        && matches!(prop, Prop::C01 | Prop::C18)
+        && rng.below(1_500_000) == 0
+    {
+        return huge_env_case(&mut rng);
+    }
     // a small share of the runs uses the repository's own fixtures as programs
     if matches!(
         prop,
@@ -816,7 +952,10 @@ fn count_faults(case: &Case, out: &RunOut, f: &mut [u32; N_FAULT_KINDS]) {
                         }
                     }
                     FaultKind::Drop(_) => f[5] += 1,
-                    FaultKind::AddForeign | FaultKind::InsertForeign(_) => f[6] += 1,
+                    FaultKind::AddForeign
+                    | FaultKind::InsertForeign(_)
+                    | FaultKind::AddManyForeign(_) => f[6] += 1,
+                    FaultKind::DropMany(_) => f[5] += 1,
                     FaultKind::Dup(_) => f[7] += 1,
                     FaultKind::Swap(..) => f[8] += 1,
                     FaultKind::SubstName(_) | FaultKind::SubstBits(_) | FaultKind::SubstKind(_) => {
@@ -1700,6 +1839,16 @@ fn eval_c13(case: &Case) -> Eval {
                 continue;
             }
             push(FaultKind::AddForeign);
+            // deviations in number by 256 and 65536 (a count kept in a narrow integer)
+            if k == 1 || k + 1 == n || k % 5 == 0 {
+                push(FaultKind::AddManyForeign(256));
+            }
+            if k == 1 {
+                push(FaultKind::AddManyForeign(65536));
+            }
+            if lay >= 256 {
+                push(FaultKind::DropMany(256));
+            }
             let positions: Vec<usize> = if lay <= 4 {
                 (0..lay).collect()
             } else {
@@ -1985,6 +2134,32 @@ fn eval_c15(case: &Case) -> Eval {
                         // caller keeps going the rows that are still yielded line up with
                         // the static ones position by position
                         (Item::DriverErr(_), _) | (Item::RuntimeErr(_), _) => {
+                            // a static-capable program reads no outputs, neither in rows nor in
+                            // declarations, so a runtime error of the dynamic run can only come
+                            // from a layout deviation of the driver; with a driver that kept its
+                            // layout in that call the static stream has the same error, or the
+                            // dynamic run is wrong
+                            if let (Item::RuntimeErr(text), Some(StaticItem::Row { .. })) =
+                                (&s.item, st)
+                            {
+                                let k = s.calls.0 as u64;
+                                let deviated = case.duts[0].faults.iter().any(|f| {
+                                    (f.at_call == k || f.at_call == 0)
+                                        && !matches!(f.kind, FaultKind::Error | FaultKind::Value(..))
+                                });
+                                if !deviated && case.source_override.is_none() {
+                                    ev.violation = Some(Violation {
+                                        oracle: "C15.static_eq",
+                                        detail: format!(
+                                            "item {j}: the dynamic run (driver keeping its layout) \
+                                             has a runtime error ({}) where static iteration \
+                                             yields a row",
+                                            text.chars().take(120).collect::<String>()
+                                        ),
+                                    });
+                                    return ev;
+                                }
+                            }
                             if !case.continue_after_error {
                                 break;
                             }
